@@ -152,7 +152,13 @@ def replay_in_clean_interpreter(prop, task_name, values, timeout=120):
 def run_property(prop, tier="quick", seed=0, level="proof", only=None, jobs=None, checker_cmd=None,
                  extra_trusted=(), explanation=None):
     t_start = time.time()
+    os.environ["VERIF_TIER"] = tier
+    os.environ["VERIF_SEED"] = str(seed)
     load_contracts(prop)
+    import frame
+    if not os.path.abspath(frame.__file__).startswith(os.path.abspath(REPO)):
+        print(f"CHECKER-ERROR property={prop} the repository under check is {REPO} but frame was imported from {frame.__file__}")
+        return 3
     tasks = REGISTRY.get(prop, [])
     sel = [i for i, t in enumerate(tasks)
            if (t.tier == "quick" or tier == "thorough") and (only is None or only in t.name)]
